@@ -166,6 +166,9 @@ def ref_setup(ex, p):
         p_.add_schema(r.t, lambda pth, j: Implies(And(j >= H0.lo_(r.t), j < H0.hi_(r.t), is_kind(H0.raw(r.t, j), "method")),
                                                   And(Val.is_ref(H0.getf(H0.raw(r.t, j), "__func__")), Val.a(H0.getf(H0.raw(r.t, j), "__func__")) >= 0,
                                                       is_exact_kind(H0.getf(H0.getf(H0.raw(r.t, j), "__func__"), "__name__"), "str"))))
+        # a builtin (C-implemented) bound method has a str __name__ of its own
+        p_.add_schema(r.t, lambda pth, j: Implies(And(j >= H0.lo_(r.t), j < H0.hi_(r.t), is_kind(H0.raw(r.t, j), "builtin_method")),
+                                                  is_exact_kind(H0.getf(H0.raw(r.t, j), "__name__"), "str")))
         p_.ghost["referents"] = r.t
         return [("ok", p_, r)]
     def cec(ex_, p_, args, kw, node):
@@ -191,12 +194,14 @@ def ref_inv():
         ret = ctx.v("ret")
         r = ctx.v("referent")
         H = ctx.H
-        name = H.getf(H.getf(r, "__func__"), "__name__")
+        # the name a bound method goes by: its function's for a Python method, its own for a C-implemented one (locks, files)
+        name = If(is_kind(r, "method"), H.getf(H.getf(r, "__func__"), "__name__"), H.getf(r, "__name__"))
         ex = ctx.ex
-        is_exit_method = And(is_kind(r, "method"), Or(ex.eq(ctx.p, SV(name), ex.const(ctx.p, "__exit__")), ex.eq(ctx.p, SV(name), ex.const(ctx.p, "__aexit__"))))
+        is_exit_method = And(Or(is_kind(r, "method"), is_kind(r, "builtin_method")),
+                             Or(ex.eq(ctx.p, SV(name), ex.const(ctx.p, "__exit__")), ex.eq(ctx.p, SV(name), ex.const(ctx.p, "__aexit__"))))
         n0, n1 = Hh.length(ret), H.length(ret)
         new = H.at(ret, n1 - 1)
-        # exactly the bound methods named __exit__ / __aexit__ contribute one Context each, in referent order
+        # exactly the bound methods (Python or builtin) named __exit__ / __aexit__ contribute one Context each, in referent order
         return If(is_exit_method,
                   And(n1 == n0 + 1, is_kind(new, "Context"), H.getf(new, "obj") == H.getf(r, "__self__"),
                       H.getf(new, "is_async") == mkbool(str_contains(name, ex.const(ctx.p, "a").t)), H.getf(new, "is_exiting") == mkbool(False)),
